@@ -134,9 +134,7 @@ func directBody(c dcfg) func() {
 			cnt["ownership_violations"] = len(v)
 			w.failf("ownership %s|%s (belongs to C11 as well)", v[0].Sig, v[0].Desc)
 		}
-		if e := logErrors(); e != "" {
-			w.failf("logged-error|nbio logged an error (a recovered panic?): %s", e)
-		}
+		w.logFailure()
 		lastCounters = cnt
 		lastOutcome = "direct:" + orderOf(res, msgs)
 		w.flush()
